@@ -21,6 +21,7 @@ func init() {
 			ruleStartOnce(c)
 			c.Clause("C10-D4")
 			ruleSendWholeMessages(c)
+			ruleEncoderWrites(c)
 		},
 	})
 }
